@@ -185,11 +185,29 @@ Definition size_fields (c : string) : option (string * string) :=
           || String.eqb c "GF180BipolarParams" then None
   else Some ("w", "l").
 
+(* Literal sizes: a Literal is the TEXT of an expression that the simulator evaluates.  The walkers of
+   Sky130 / GF180 rewrite it for unit scaling; whatever they write must still contain the GIVEN
+   expression as one operand: either the text unchanged, or the text enclosed in its own pair of
+   parentheses and multiplied by the unit factor, `((t) * 1e6)`; the bare form `(t * 1e6)` keeps t one
+   operand only when t is a single token (an identifier or a number: `a + b * 1e6` is not
+   `(a + b) * 1e6`).  Proofs/C15LitProofs.v proves that in the parenthesised form the parenthesis
+   opened before t is closed right after t, for every t with balanced parentheses. *)
+Definition atom_char (c : ascii) : bool :=
+  let n := nat_of_ascii c in
+  ((48 <=? n) && (n <=? 57) || (65 <=? n) && (n <=? 90) || (97 <=? n) && (n <=? 122) || (n =? 95) || (n =? 46))%nat.
+Fixpoint atomic (t : string) : bool :=
+  match t with EmptyString => true | String c r => atom_char c && atomic r end.
+Definition grouped_scaled (t : string) : string := "((" ++ t ++ ") * 1e6)".
+Definition bare_scaled (t : string) : string := "(" ++ t ++ " * 1e6)".
+Definition lit_size_ok (t a : string) : bool :=
+  String.eqb a t || String.eqb a (grouped_scaled t) || (atomic t && negb (String.eqb t "") && String.eqb a (bare_scaled t)).
+
 (* a given NUMERIC size must reach the device unchanged, an absent one must be the PDK's default;
-   Literal sizes are rewritten by the walkers (unit scaling) and are only compared with the model *)
+   a given Literal size must reach the device as one operand (lit_size_ok) *)
 Definition one_size_ok (given : option pv) (dflt : option pv) (actual : option pv) : bool :=
   match given with
   | Some (PNum n d) => match actual with Some a => pv_same a (PNum n d) | None => false end
+  | Some (PLit t) => match actual with Some (PLit a) => lit_size_ok t a | _ => false end
   | Some _ => true
   | None => match dflt, actual with
             | Some dv, Some a => pv_same a dv
